@@ -188,6 +188,70 @@ def loop_exits(prog, fn, s, header, body):
     return out
 
 
+ACCESSORS = ("index_mut", "deref_mut", "as_mut_slice", "as_mut", "get_mut", "iter_mut", "get_unchecked_mut", "borrow_mut", "unwrap", "expect",
+             "split_at_mut", "chunks_exact_mut", "chunks_mut", "first_mut", "last_mut", "into_iter", "next", "by_ref", "enumerate", "zip", "rev", "skip",
+             "take", "as_mut_ptr", "unwrap_unchecked", "into_remainder")
+
+
+def buffer_mutations(f, buf_field):
+    """blocks of `f` (a method, self = local 1) in which the content of `self.<buf_field>` can change: a store into the field
+    or through a pointer derived from a mutable borrow of it (also via accessor calls such as index_mut / iter_mut().next()),
+    or a call that receives such a pointer and is not itself a mere accessor.  Taking `&mut` alone is not a change."""
+    def on_buf(pl, alias):
+        return (not isinstance(pl, int)) and ((pl[0] == 1 and any(p[0] == "." and p[2] == buf_field for p in pl[1])) or (pl[0] in alias and any(p[0] == "*" for p in pl[1])))
+
+    def base_of(op):
+        if op[0] not in ("c", "m"):
+            return None
+        return op[1] if isinstance(op[1], int) else op[1][0]
+    alias = set()
+    changed = True
+    while changed:
+        changed = False
+        for b in f.blocks:
+            if b.cleanup:
+                continue
+            for st in b.stmts:
+                if st[0] != "=" or not isinstance(st[1], int) or st[1] in alias:
+                    continue
+                rv = st[2]
+                if rv[0] in ("use", "cast"):
+                    op = rv[1] if rv[0] == "use" else rv[2]
+                    if op[0] in ("c", "m"):
+                        pl = op[1]
+                        base = pl if isinstance(pl, int) else pl[0]
+                        if on_buf(pl, ()) or base in alias:
+                            alias.add(st[1])
+                            changed = True
+                elif rv[0] == "ref" and rv[1] == "mut" and (on_buf(rv[2], alias) or (not isinstance(rv[2], int) and rv[2][0] in alias) or (isinstance(rv[2], int) and rv[2] in alias)):
+                    alias.add(st[1])
+                    changed = True
+                elif rv[0] == "agg" and any(base_of(o) in alias for o in rv[-1] if isinstance(o, (list, tuple)) and o and o[0] in ("c", "m")):
+                    alias.add(st[1])
+                    changed = True
+            t = b.term
+            if t[0] == "call" and isinstance(t[1]["dest"], int) and t[1]["dest"] not in alias:
+                nm = (t[1].get("callee") or "").rsplit("::", 1)[-1]
+                if nm in ACCESSORS and any(base_of(a) in alias for a in t[1]["args"]):
+                    alias.add(t[1]["dest"])
+                    changed = True
+    muts = set()
+    for b in f.blocks:
+        if b.cleanup:
+            continue
+        for st in b.stmts:
+            if st[0] == "=" and on_buf(st[1], alias):
+                muts.add(b.idx)
+        t = b.term
+        if t[0] == "call":
+            nm = (t[1].get("callee") or "").rsplit("::", 1)[-1]
+            if not isinstance(t[1]["dest"], int) and on_buf(t[1]["dest"], alias):
+                muts.add(b.idx)
+            if nm not in ACCESSORS and any(base_of(a) in alias for a in t[1]["args"]):
+                muts.add(b.idx)
+    return muts
+
+
 def paired_writes(prog, owner, buf_field, count_field, either_side=False):
     """who-writes pairing: for every `&mut self` method of `owner` that can change the buffer held in `buf_field` (store
     through the field, a mutable borrow of it, or through a copied Box/Vec pointer), every path from that point to a normal
@@ -207,36 +271,7 @@ def paired_writes(prog, owner, buf_field, count_field, either_side=False):
         if f.argc < 1 or not f.local_ty(1).startswith("&mut"):
             continue
 
-        def on_buf(pl, alias):
-            return (not isinstance(pl, int)) and ((pl[0] == 1 and any(p[0] == "." and p[2] == buf_field for p in pl[1])) or (pl[0] in alias and any(p[0] == "*" for p in pl[1])))
-        alias = set()
-        changed = True
-        while changed:
-            changed = False
-            for b in f.blocks:
-                for st in b.stmts:
-                    if st[0] != "=" or not isinstance(st[1], int) or st[1] in alias or st[2][0] not in ("use", "cast"):
-                        continue
-                    op = st[2][1] if st[2][0] == "use" else st[2][2]
-                    if op[0] not in ("c", "m"):
-                        continue
-                    pl = op[1]
-                    base = pl if isinstance(pl, int) else pl[0]
-                    if on_buf(pl, ()) or base in alias:
-                        alias.add(st[1])
-                        changed = True
-        muts = set()
-        for b in f.blocks:
-            if b.cleanup:
-                continue
-            for st in b.stmts:
-                if st[0] == "=" and st[2][0] == "ref" and st[2][1] == "mut" and on_buf(st[2][2], alias):
-                    muts.add(b.idx)
-                if st[0] == "=" and on_buf(st[1], alias):
-                    muts.add(b.idx)
-            t = b.term
-            if t[0] == "call" and not isinstance(t[1]["dest"], int) and on_buf(t[1]["dest"], alias):
-                muts.add(b.idx)
+        muts = buffer_mutations(f, buf_field)
         if not muts:
             continue
         sf = Sym(prog, f, ifconv=False)
